@@ -115,12 +115,15 @@ def judge_chunk(u, rows, tag):
     rows = list(rows)
     while rows:
         tr = os.path.join(d, f"trace-{tag}.ndjson")
-        write_ndjson(tr, [{k: r[k] for k in ("id", "form", "arms", "obs", "src")} for r in rows])
+        write_ndjson(tr, [{"form": r["form"], "arms": r["arms"],
+                           "obs": {k: r["obs"][k] for k in ("nonexh", "cex", "useless", "panic")}} for r in rows])
         v = tlc("PatternsTrace", "PatternsTrace.cfg", env={"C07_U": u, "TRACE": tr}, workers=8, timeout=2400,
                 tag=f"c07tr{tag}", xmx="12g")
-        drift += sum(1 for p in v.printed if p[0] == "DRIFT")
-        for p in [p for p in v.printed if p[0] == "DRIFT"][:3]:
-            log(f"MODEL-DRIFT: universe {u}: the transcription in Patterns.tla predicts another answer than the checker gave: {p[1]}")
+        drifted = [rows[int(p[1]) - 1] for p in v.printed if p[0] == "DRIFT"]
+        drift += len(drifted)
+        for r in drifted[:3]:
+            log(f"MODEL-DRIFT: universe {u}: the transcription in Patterns.tla predicts another answer than the checker "
+                f"gave on: {r['src']}  (observed {r['obs']})")
         if v.violated in VERDICT_INVARIANTS:
             l = v.last_l()
             if not l or l > len(rows):
@@ -211,7 +214,8 @@ def run(tier):
              "replay_s": 0.0, "judge_s": 0.0}
     vac = vacuity_run()
     fails, per, feats, samples = 0, {}, {}, []
-    for u in UNIVERSES:
+    only = os.environ.get("VERIF_DEV_C07_UNIVERSES")    # development aid only: never set by MANIFEST commands
+    for u in (only.split(",") if only else UNIVERSES):
         uni, cases, info = generate(u, BOUNDS[tier][u], stats)
         rows, viols = replay_and_judge(u, uni, cases, u, stats, feats)
         info["records_replayed"] = len(rows)
